@@ -19,6 +19,10 @@ func c01Program(g *prog.Gen, idx int) []*prog.Op {
 		long += string(rune('a' + i%26))
 	}
 	keys = append(keys, long, "p/"+long)
+	// each program works on a few keys only, so that overwrites, copies onto existing objects and copies of
+	// an object onto itself (metadata rewritten in place) are frequent
+	g.R.Shuffle(len(keys), func(i, j int) { keys[i], keys[j] = keys[j], keys[i] })
+	keys = keys[:3+g.R.Intn(3)]
 	n := 6 + g.R.Intn(10)
 	for i := 0; i < n; i++ {
 		k := keys[g.R.Intn(len(keys))]
@@ -28,7 +32,11 @@ func c01Program(g *prog.Gen, idx int) []*prog.Op {
 			ops = append(ops, &prog.Op{Kind: "putObject", Caller: caller, B: b, K: k, Put: g.PutSpec(), Valid: true})
 		case 5, 6:
 			o := &prog.Op{Kind: "copyObject", Caller: caller, SB: b, SK: keys[g.R.Intn(len(keys))], B: b, K: k, Valid: true}
-			if g.R.Chance(50) {
+			self := g.R.Chance(35)
+			if self {
+				o.SK = k
+			}
+			if self || g.R.Chance(50) {
 				o.Put = g.PutSpec()
 				o.Put.Data = nil
 				o.Put.Encoding = ""
@@ -77,10 +85,10 @@ func init() {
 	checks["c01"] = checkDef{"C01",
 		"programs of PutObject in six payload encodings (signed payload, UNSIGNED-PAYLOAD, signed / signed+trailer / unsigned+trailer aws-chunked with five checksum algorithms, presigned PUT) with random bodies (sizes 0…70000 incl. 32 KiB±1), content headers, user metadata and tags; CopyObject COPY/REPLACE; tagging; deletes; each followed by GET/HEAD/GetObjectTagging; keys with spaces, URL-reserved characters, UTF-8, 255-byte segments, deep nesting; requests spread round-robin over 3 gateway processes on one storage; storage configurations xattr/sidecar × O_TMPFILE/named temp × versioning dir on/off. Every answer compared with Model.Gw.step. Non-trivial = program reaches an existing bucket; distinct by op list.",
 		[]checkFn{
-			fam("xattr-otmp", false, false, false, 3, 101, 25, 1500),
-			fam("xattr-namedtmp", false, false, true, 2, 102, 10, 600),
-			fam("sidecar-otmp", false, true, false, 2, 103, 10, 600),
-			fam("sidecar-namedtmp-vdir", true, true, true, 2, 104, 8, 600),
-			fam("xattr-otmp-vdir", true, false, false, 3, 105, 10, 600),
+			fam("xattr-otmp", false, false, false, 3, 101, 80, 2500),
+			fam("xattr-namedtmp", false, false, true, 2, 102, 30, 1000),
+			fam("sidecar-otmp", false, true, false, 2, 103, 30, 1000),
+			fam("sidecar-namedtmp-vdir", true, true, true, 2, 104, 25, 1000),
+			fam("xattr-otmp-vdir", true, false, false, 3, 105, 30, 1000),
 		}}
 }
